@@ -98,8 +98,9 @@ pub fn profile(name: &str) -> Profile {
         }
         "c04" => {
             //          Ld LdD LdF DrG GIn DrO  St  Sw Cas Rcu Snd Rcv StS Ver
-            p.writer = [1, 3, 1, 1, 0, 10, 6, 45, 12, 10, 0, 0, 0, 0];
-            p.mixed = [6, 8, 3, 6, 1, 10, 5, 30, 10, 8, 0, 0, 0, 1];
+            p.writer = [1, 3, 1, 1, 0, 10, 6, 45, 12, 10, 0, 0, 5, 0];
+            p.mixed = [6, 8, 3, 6, 1, 10, 5, 30, 10, 8, 0, 0, 4, 1];
+            p.cas_pool = true;
             p.roles = [2, 5, 3];
             p.max_conts = 1;
         }
